@@ -428,6 +428,10 @@ def ev_dtype_range(case):
     info = np.iinfo(dt)
     lo, hi = int(info.min), int(info.max)
     letters = [lo, lo // 2 if lo else hi // 4, 0 if lo else hi // 2, hi // 2 + 1 if lo else hi - 1, hi]
+    if case["dtype"] == "i8":  # 64-bit: letters (and all their differences) that a float64 holds exactly, so the statement is unambiguous
+        letters = [-(2 ** 63), -(2 ** 62), 0, 2 ** 62 + 2048, 2 ** 63 - 2048]
+    elif case["dtype"] == "u8":
+        letters = [0, 2 ** 62, 2 ** 63, 2 ** 63 + 2 ** 62 + 2048, 2 ** 64 - 2048]
     fails, tags, nev = [], set(), 0
     for n in case["ns"]:
         for idx in itertools.product(range(len(letters)), repeat=n):
@@ -579,7 +583,7 @@ def run(ck):
                         hcases.append({"dim": dim, "form": form, "alphabet": A, "samples": samples[g : g + 8], "depth": depth, "scale": a, "shift": b})
     ck.run_cases("history", hcases, chunk=1)
     # integer samples that use the whole range of their type
-    rcases = [{"dtype": d, "ns": [2, 3] if quick else [2, 3, 4], "fractions": [0.2, 0.5, 0.68]} for d in ("i1", "u1", "i2", "u2", "i4", "u4")]
+    rcases = [{"dtype": d, "ns": [2, 3] if quick else [2, 3, 4], "fractions": [0.2, 0.5, 0.68]} for d in ("i1", "u1", "i2", "u2", "i4", "u4", "i8", "u8")]
     ck.run_cases("dtype_range", rcases, chunk=1)
     ck.rule = (
         "every sample in A^n for the listed value alphabets (all of A^n, enumerated), n=2..%d, x 9 fractions, brute-force oracle over all "
